@@ -4,65 +4,85 @@ import (
 	"bufio"
 	"fmt"
 	"io"
-	"os"
 	"os/exec"
 	"strings"
 	"time"
 )
 
+// Solver is one persistent SMT solver process (z3 -in by default). Not safe for concurrent use;
+// every worker owns one.
 type Solver struct {
-	cmd     *exec.Cmd
-	in      io.WriteCloser
-	out     *bufio.Reader
-	decl    map[string]bool
-	queries int
-	sat     int
-	unsat   int
-	dur     time.Duration
-	depth   int
+	bin       []string
+	cmd       *exec.Cmd
+	in        io.WriteCloser
+	out       *bufio.Reader
+	decl      map[string]bool
+	defined   map[int]string
+	scopes    []scopeRec
+	lines     [][]string // asserted/declared lines per scope level (for self-contained dumps)
+	timeoutMs int
+
+	queries, nsat, nunsat, nunknown int
+	dur                             time.Duration
+	slowest                         time.Duration
+
+	sampleEvery int
+	samples     []querySample
+	errs        []string
 }
 
-func NewSolver() *Solver {
-	cmd := exec.Command("z3", "-in", "-smt2")
+type scopeRec struct {
+	declared []string
+	defs     []int
+}
+
+type querySample struct {
+	script string
+	result string
+}
+
+func NewSolver(bin []string, timeoutMs int) *Solver {
+	s := &Solver{bin: bin, timeoutMs: timeoutMs}
+	s.start()
+	return s
+}
+
+func (s *Solver) start() {
+	cmd := exec.Command(s.bin[0], s.bin[1:]...)
 	in, _ := cmd.StdinPipe()
 	out, _ := cmd.StdoutPipe()
+	cmd.Stderr = nil
 	if err := cmd.Start(); err != nil {
 		panic(err)
 	}
-	s := &Solver{cmd: cmd, in: in, out: bufio.NewReader(out), decl: map[string]bool{}}
-	s.send("(set-option :timeout 60000)")
-	return s
+	s.cmd, s.in, s.out = cmd, in, bufio.NewReaderSize(out, 1<<16)
+	s.resetState()
+	s.raw(fmt.Sprintf("(set-option :timeout %d)", s.timeoutMs))
 }
-var lineStack = [][]string{{}}
-var dumpN int
+
+func (s *Solver) Close() {
+	if s.cmd != nil {
+		s.in.Close()
+		s.cmd.Process.Kill()
+		s.cmd.Wait()
+		s.cmd = nil
+	}
+}
+
+func (s *Solver) resetState() {
+	s.decl = map[string]bool{}
+	s.defined = map[int]string{}
+	s.scopes = nil
+	s.lines = [][]string{{}}
+}
+
+func (s *Solver) raw(l string) { io.WriteString(s.in, l+"\n") }
 
 func (s *Solver) send(l string) {
-	io.WriteString(s.in, l+"\n")
-	if strings.HasPrefix(l, "(push") {
-		lineStack = append(lineStack, []string{})
-	} else if strings.HasPrefix(l, "(pop") {
-		lineStack = lineStack[:len(lineStack)-1]
-	} else if !strings.HasPrefix(l, "(check-sat") && !strings.HasPrefix(l, "(get-value") {
-		lineStack[len(lineStack)-1] = append(lineStack[len(lineStack)-1], l)
-	}
+	s.raw(l)
+	s.lines[len(s.lines)-1] = append(s.lines[len(s.lines)-1], l)
 }
-func dumpScript(extra string) {
-	dumpN++
-	if dumpN > 3 {
-		return
-	}
-	f, _ := os.Create(fmt.Sprintf("slow%d.smt2", dumpN))
-	for _, lv := range lineStack {
-		for _, l := range lv {
-			if !strings.HasPrefix(l, "(set-option") {
-				fmt.Fprintln(f, l)
-			}
-		}
-	}
-	fmt.Fprintln(f, extra)
-	fmt.Fprintln(f, "(check-sat)")
-	f.Close()
-}
+
 func (s *Solver) readLine() string {
 	l, err := s.out.ReadString('\n')
 	if err != nil {
@@ -71,88 +91,82 @@ func (s *Solver) readLine() string {
 	return strings.TrimSpace(l)
 }
 
-// declare all vars in t (global, outside push/pop since declared before first push)
-func (s *Solver) declare(t *Term) {
-	seen := map[int]bool{}
-	var rec func(t *Term)
-	rec = func(t *Term) {
-		if seen[t.id] {
-			return
-		}
-		seen[t.id] = true
-		if t.op == "var" && !s.decl[t.name] {
-			s.decl[t.name] = true
-			if t.w == 0 {
-				s.send(fmt.Sprintf("(declare-const %s Bool)", t.name))
-			} else {
-				s.send(fmt.Sprintf("(declare-const %s (_ BitVec %d))", t.name, t.w))
+// readSexp reads one balanced s-expression (possibly spanning lines).
+func (s *Solver) readSexp() string {
+	var sb strings.Builder
+	depth := 0
+	started := false
+	for {
+		l := s.readLine()
+		sb.WriteString(l)
+		sb.WriteByte(' ')
+		for _, c := range l {
+			if c == '(' {
+				depth++
+				started = true
+			} else if c == ')' {
+				depth--
 			}
 		}
-		for _, a := range t.args {
-			rec(a)
+		if (started && depth <= 0) || (!started && l != "") {
+			return sb.String()
 		}
 	}
-	rec(t)
 }
 
-// Vars must be declared at depth 0 to survive pops; we pre-declare lazily by popping? Simpler: declare in
-// current scope and forget declarations on pop.
-type scope struct{ declared []string }
-
-var scopes []scope
+func (s *Solver) Reset() {
+	s.raw("(reset)")
+	s.raw(fmt.Sprintf("(set-option :timeout %d)", s.timeoutMs))
+	s.resetState()
+}
 
 func (s *Solver) Push() {
-	s.send("(push 1)")
-	s.depth++
-	scopes = append(scopes, scope{})
-	defScopes = append(defScopes, defScope{})
+	s.raw("(push 1)")
+	s.scopes = append(s.scopes, scopeRec{})
+	s.lines = append(s.lines, []string{})
 }
+
 func (s *Solver) Pop() {
-	s.send("(pop 1)")
-	s.depth--
-	sc := scopes[len(scopes)-1]
-	scopes = scopes[:len(scopes)-1]
+	s.raw("(pop 1)")
+	sc := s.scopes[len(s.scopes)-1]
+	s.scopes = s.scopes[:len(s.scopes)-1]
 	for _, n := range sc.declared {
 		delete(s.decl, n)
 	}
-	ds := defScopes[len(defScopes)-1]
-	defScopes = defScopes[:len(defScopes)-1]
-	for _, id := range ds.ids {
-		delete(defined, id)
+	for _, id := range sc.defs {
+		delete(s.defined, id)
+	}
+	s.lines = s.lines[:len(s.lines)-1]
+}
+
+func sortOf(w int) string {
+	if w == 0 {
+		return "Bool"
+	}
+	return fmt.Sprintf("(_ BitVec %d)", w)
+}
+
+func (s *Solver) declareVar(t *Term) {
+	if s.decl[t.name] {
+		return
+	}
+	s.decl[t.name] = true
+	s.send(fmt.Sprintf("(declare-const %s %s)", t.name, sortOf(t.w)))
+	if n := len(s.scopes); n > 0 {
+		s.scopes[n-1].declared = append(s.scopes[n-1].declared, t.name)
 	}
 }
-func (s *Solver) declareScoped(t *Term) {
-	before := map[string]bool{}
-	for k := range s.decl {
-		before[k] = true
-	}
-	s.declare(t)
-	if len(scopes) > 0 {
-		for k := range s.decl {
-			if !before[k] {
-				scopes[len(scopes)-1].declared = append(scopes[len(scopes)-1].declared, k)
-			}
-		}
-	}
-}
-var defined = map[int]string{}
-
-type defScope struct{ ids []int }
-
-var defScopes []defScope
 
 // ref returns an SMT expression naming t; non-leaf terms are introduced once per scope with define-fun.
 func (s *Solver) ref(t *Term) string {
-	if t.op == "const" {
+	switch t.op {
+	case "const":
 		return t.SMT()
-	}
-	if t.op == "var" {
-		if !s.decl[t.name] {
-			s.declareScoped(t)
-		}
+	case "var":
+		s.declareVar(t)
 		return t.name
 	}
-	if n, ok := defined[t.id]; ok {
+	if n, ok := s.defined[t.id]; ok {
 		return n
 	}
 	parts := make([]string, len(t.args))
@@ -171,106 +185,146 @@ func (s *Solver) ref(t *Term) string {
 		body = "(" + t.op + " " + strings.Join(parts, " ") + ")"
 	}
 	name := fmt.Sprintf("t%d", t.id)
-	sort := "Bool"
-	if t.w > 0 {
-		sort = fmt.Sprintf("(_ BitVec %d)", t.w)
-	}
-	s.send(fmt.Sprintf("(define-fun %s () %s %s)", name, sort, body))
-	defined[t.id] = name
-	if len(defScopes) > 0 {
-		defScopes[len(defScopes)-1].ids = append(defScopes[len(defScopes)-1].ids, t.id)
+	s.send(fmt.Sprintf("(define-fun %s () %s %s)", name, sortOf(t.w), body))
+	s.defined[t.id] = name
+	if n := len(s.scopes); n > 0 {
+		s.scopes[n-1].defs = append(s.scopes[n-1].defs, t.id)
 	}
 	return name
 }
 
 func (s *Solver) Assert(t *Term) {
+	if t.True() {
+		return
+	}
 	s.send("(assert " + s.ref(t) + ")")
 }
 
-// CheckWith: is pc ∧ extra satisfiable?
-func (s *Solver) CheckWith(extra *Term) string {
-	t0 := time.Now()
-	s.Push()
-	s.Assert(extra)
-	s.send("(check-sat)")
-	r := s.readLine()
-	if time.Since(t0) > 400*time.Millisecond {
-		dumpScript("")
+func (s *Solver) script() string {
+	var sb strings.Builder
+	for _, lv := range s.lines {
+		for _, l := range lv {
+			sb.WriteString(l)
+			sb.WriteByte('\n')
+		}
 	}
-	s.Pop()
-	s.queries++
-	s.dur += time.Since(t0)
-	if d := time.Since(t0); d > 500*time.Millisecond {
-		fmt.Printf("SLOW query %.2fs result=%s q#%d extra=%s\n", d.Seconds(), r, s.queries, "-")
-	}
-	switch r {
-	case "sat":
-		s.sat++
-	case "unsat":
-		s.unsat++
-	default:
-		panic("solver said: " + r)
-	}
-	return r
+	sb.WriteString("(check-sat)\n")
+	return sb.String()
 }
 
-// Model for current assertions + extra, for given vars
-func (s *Solver) ModelWith(extra *Term, vars []*Term) map[string]uint64 {
+// Check decides satisfiability of (asserted ∧ extra). If vars != nil and the answer is sat,
+// the model restricted to vars is returned.
+func (s *Solver) Check(extra *Term, vars []*Term) (string, map[string]uint64) {
 	t0 := time.Now()
-	defer func() {
-		if d := time.Since(t0); d > 400*time.Millisecond {
-			fmt.Printf("SLOW model %.2fs\n", d.Seconds())
-		}
-		s.dur += time.Since(t0)
-	}()
 	s.Push()
 	s.Assert(extra)
 	for _, v := range vars {
-		s.declareScoped(v)
+		s.declareVar(v)
 	}
-	s.send("(check-sat)")
+	s.raw("(check-sat)")
 	r := s.readLine()
-	res := map[string]uint64{}
-	if time.Since(t0) > 400*time.Millisecond {
-		dumpScript("")
+	for strings.HasPrefix(r, "(error") || strings.HasPrefix(r, "unsupported") {
+		s.errs = append(s.errs, r)
+		r = "unknown"
+		break
 	}
-	if r == "sat" {
-		for _, v := range vars {
-			s.send("(get-value (" + v.name + "))")
-			l := s.readLine()
-			// ((name #x...)) or ((name #b...)) or ((name true))
-			l = strings.TrimSuffix(strings.TrimPrefix(l, "(("), "))")
-			parts := strings.SplitN(l, " ", 2)
-			val := parts[1]
-			var x uint64
-			if strings.HasPrefix(val, "#x") {
-				fmt.Sscanf(val[2:], "%x", &x)
-			} else if strings.HasPrefix(val, "#b") {
-				fmt.Sscanf(val[2:], "%b", &x)
-			} else if val == "true" {
-				x = 1
-			}
-			res[v.name] = x
+	s.queries++
+	if s.sampleEvery > 0 && s.queries%s.sampleEvery == 0 && (r == "sat" || r == "unsat") {
+		s.samples = append(s.samples, querySample{s.script(), r})
+	}
+	var model map[string]uint64
+	switch r {
+	case "sat":
+		s.nsat++
+		if len(vars) > 0 {
+			model = s.getValues(vars)
 		}
+	case "unsat":
+		s.nunsat++
+	default:
+		s.nunknown++
+		r = "unknown"
 	}
 	s.Pop()
+	d := time.Since(t0)
+	s.dur += d
+	if d > s.slowest {
+		s.slowest = d
+	}
+	if r == "unknown" {
+		// a timed-out z3 may be in a bad state; restart it lazily by the caller's next Reset.
+	}
+	return r, model
+}
+
+func (s *Solver) getValues(vars []*Term) map[string]uint64 {
+	names := make([]string, len(vars))
+	for i, v := range vars {
+		names[i] = v.name
+	}
+	s.raw("(get-value (" + strings.Join(names, " ") + "))")
+	out := s.readSexp()
+	res := map[string]uint64{}
+	if strings.HasPrefix(out, "(error") {
+		s.errs = append(s.errs, out)
+		return res
+	}
+	// tokens: ((name val) (name val) ...)
+	out = strings.NewReplacer("(", " ", ")", " ").Replace(out)
+	f := strings.Fields(out)
+	for i := 0; i+1 < len(f); i += 2 {
+		val := f[i+1]
+		var x uint64
+		switch {
+		case strings.HasPrefix(val, "#x"):
+			fmt.Sscanf(val[2:], "%x", &x)
+		case strings.HasPrefix(val, "#b"):
+			fmt.Sscanf(val[2:], "%b", &x)
+		case val == "true":
+			x = 1
+		case val == "false":
+			x = 0
+		case val == "_": // (_ bvN w)
+			fmt.Sscanf(f[i+2], "bv%d", &x)
+			i += 2
+		}
+		res[f[i]] = x
+	}
 	return res
 }
 
-func trunc(s string, n int) string {
-	if len(s) > n {
-		return s[:n] + "..."
+// crossCheck re-decides the sampled queries with another solver binary; returns number checked and disagreements.
+func crossCheck(samples []querySample, bin []string, timeoutMs int) (checked int, disagreements []string) {
+	if len(samples) == 0 {
+		return 0, nil
 	}
-	return s
-}
-
-func (s *Solver) Reset() {
-	s.send("(reset)")
-	s.send("(set-option :timeout 60000)")
-	s.decl = map[string]bool{}
-	defined = map[int]string{}
-	scopes = nil
-	defScopes = nil
-	lineStack = [][]string{{}}
-	s.depth = 0
+	cmd := exec.Command(bin[0], bin[1:]...)
+	in, _ := cmd.StdinPipe()
+	outp, _ := cmd.StdoutPipe()
+	if err := cmd.Start(); err != nil {
+		return 0, []string{"cannot start " + bin[0] + ": " + err.Error()}
+	}
+	out := bufio.NewReader(outp)
+	defer func() { in.Close(); cmd.Process.Kill(); cmd.Wait() }()
+	for i, q := range samples {
+		io.WriteString(in, "(reset)\n")
+		if strings.Contains(bin[0], "z3") {
+			io.WriteString(in, fmt.Sprintf("(set-option :timeout %d)\n", timeoutMs))
+		}
+		io.WriteString(in, q.script)
+		l, err := out.ReadString('\n')
+		if err != nil {
+			disagreements = append(disagreements, fmt.Sprintf("sample %d: solver died", i))
+			return
+		}
+		l = strings.TrimSpace(l)
+		if l == "unknown" || l == "timeout" {
+			continue
+		}
+		checked++
+		if l != q.result {
+			disagreements = append(disagreements, fmt.Sprintf("sample %d: primary=%s %s=%s", i, q.result, bin[0], l))
+		}
+	}
+	return
 }
